@@ -193,6 +193,10 @@ func TestVerifC42(t *testing.T) {
 		for _, id := range roots {
 			walk(id)
 		}
+		cancelAt := 0
+		if tp.Choose(3) == 0 {
+			cancelAt = 1 + tp.Choose(12) // the caller's context is cancelled after that many scheduling points
+		}
 		r.Set("trees", len(trees))
 		r.Set("roots", len(roots))
 		r.Set("damage", damage)
@@ -248,6 +252,42 @@ func TestVerifC42(t *testing.T) {
 					if !reach[id] {
 						r.Fail("exact", "unreachable-tree-loaded", "tree %v is not reachable but was loaded", id.Str())
 					}
+				}
+			}
+			// 1b. the caller cancels its context somewhere in the middle: an error, or the complete result
+			if !damagedReachable && cancelAt > 0 {
+				used3 := restic.NewBlobSet()
+				ctx3, cancel3 := context.WithCancel(context.Background())
+				var err3 error
+				s.Go("canceller", nil, func() {
+					for i := 0; i < cancelAt; i++ {
+						simrt.Park("ctl", "before-cancel", nil)
+					}
+					s.Count("fault:context-cancelled")
+					cancel3()
+				})
+				s.Do("find-cancelled", nil, func() {
+					err3 = FindUsedBlobs(ctx3, ld, roots, used3, restic.NoopCounter)
+				})
+				cancel3()
+				if s.Panic != "" {
+					r.Fail("panic", "panic", "%s", s.Panic)
+					return
+				}
+				if err3 == nil {
+					nt, nd := 0, 0
+					for bh := range used3 {
+						if bh.Type == restic.TreeBlob {
+							nt++
+						} else {
+							nd++
+						}
+					}
+					if nt != len(reach) || nd != len(wantData) {
+						r.Fail("cancel", "partial-result-without-error", "the context was cancelled during the traversal: FindUsedBlobs returned nil with %d trees / %d data blobs, reachable are %d / %d", nt, nd, len(reach), len(wantData))
+					}
+				} else {
+					r.Count("cancelled_with_error", 1)
 				}
 			}
 			// 2. StreamTrees with an explicit process-once check
